@@ -256,7 +256,19 @@ func genC02(r *Rng, idx int, tier string) *Scenario {
 		msgs = append(msgs, m)
 		sc.Steps = append(sc.Steps, Step{Op: "send", SA: 0, Dgram: i, From: from, Msg: m, Rand: &RandScript{Seed: r.U64()}})
 	}
-	rx := func() *RxOpts { return genRx(r) }
+	rx := func() *RxOpts {
+		o := genRx(r)
+		o.Redeliver = r.Chance(1, 5)
+		return o
+	}
+	// history: in half of the scenarios the receiver objects have already unprotected the genuine messages
+	if r.Bool() {
+		for i := 0; i < nmsg; i++ {
+			if r.Chance(2, 3) {
+				sc.Steps = append(sc.Steps, Step{Op: "deliver", Dgram: i, Rx: genRx(r), Obj: "long"})
+			}
+		}
+	}
 	obj := func() string { return Pick(r, "long", "long", "twin") }
 	// exhaustive families on the first message (and sometimes a second)
 	targets := []int{0}
